@@ -104,3 +104,104 @@ def replay_depth_walks(items):
 
 def replay_depth_walks_below(items):
     return _depth_results(True)
+
+
+# ---------------------------------------------------------------------------------------------
+# range algebra: public-API reproduction through Glob::new / depth() / is_match
+# ---------------------------------------------------------------------------------------------
+
+BIG = [0, 1, 2, 3, 7, 2 ** 31, 2 ** 32, 2 ** 63, 2 ** 64 - 1]
+
+
+def _bounds_forms():
+    out = ["", ":"]
+    for a in BIG:
+        out.append(":%d" % a)
+        out.append(":%d," % a)
+        for b in BIG:
+            out.append(":%d,%d" % (a, b))
+    return out
+
+
+def panic_role(msg):
+    if msg is None:
+        return "abort"
+    if msg.startswith("overflow determining"):
+        return "overflow-near-word-size"
+    if "failed to compile glob" in msg:
+        return "regex-compile-rejected"
+    if "unreachable" in msg:
+        return "unreachable-range-operation"
+    return "panic-other"
+
+
+def _algebra_battery():
+    """Expressions whose variance computation exercises every operator / operand-shape pair."""
+    forms = _bounds_forms()
+    small = ["", ":", ":0,2", ":1,", ":2", ":0,1", ":1,3", ":3,", ":18446744073709551615,",
+             ":1,18446744073709551615", ":9223372036854775808,", ":0,9223372036854775808"]
+    exprs = set()
+    for f in forms:
+        exprs.add("<a%s>" % f)
+        exprs.add("<a/%s>" % f)
+        exprs.add("<ab%s>x" % f)
+    for f in small:
+        for g in small:
+            exprs.add("<a%s><b%s>" % (f, g))                 # conjunction
+            exprs.add("<a/%s><b/%s>" % (f, g))
+            exprs.add("{<a%s>,<b%s>}" % (f, g))              # disjunction
+            exprs.add("<<a%s>b%s>" % (f, g))                 # product
+            exprs.add("<<a/%s>%s>" % (f, g))
+            exprs.add("x<a%s>*<b%s>" % (f, g))
+            exprs.add("<a%s>/**/<b%s>" % (f, g))
+    return sorted(exprs)
+
+
+def replay_range_totality(items):
+    from core import probe
+    exprs = _algebra_battery()
+    rows = probe([{"op": "glob", "e": e} for e in exprs])
+    out = []
+    seen = set()
+    for e, row in zip(exprs, rows):
+        if row and (row.get("panic") or row.get("abort")):
+            role = panic_role(row.get("msg"))
+            sig = (role, row.get("loc"))
+            if sig in seen:
+                continue
+            seen.add(sig)
+            out.append(({"glob-new-panics", role},
+                        {"short": {"expression": e, "panic": row.get("msg"), "location": row.get("loc"),
+                                   "scenario": "Glob::new(expression) in a subprocess"},
+                         "battery": len(exprs)}))
+    return out
+
+
+def replay_range_soundness(items):
+    """depth() against real matching on expressions made of whole components."""
+    from core import probe
+    shapes = ["x/", "<x/>", "<x/:>", "<x/:0,1>", "<x/:2>", "<x/:1,3>", "<x/:2,>", "<x/:0,2>", "<x/:3>"]
+    exprs = set()
+    for a in shapes:
+        exprs.add(a)
+        for b in shapes:
+            exprs.add(a + b)
+            exprs.add("{%s,%s}" % (a.rstrip("/") if a == "x/" else a, b))
+            for f in ["", ":", ":0,1", ":2", ":1,2", ":2,"]:
+                exprs.add("<%s%s%s>" % (a, b if b != a else "", f))
+    exprs = sorted(exprs)
+    rows = probe([{"op": "glob", "e": e} for e in exprs])
+    paths = ["x/" * k for k in range(0, 14)]
+    live = [(e, r) for e, r in zip(exprs, rows) if r and r.get("ok")]
+    ms = probe([{"op": "match", "target": {"glob": e}, "paths": paths} for e, _ in live])
+    out = []
+    for (e, r), m in zip(live, ms):
+        d = r["depth"]
+        lo, hi = (d["inv"], d["inv"]) if "inv" in d else ((d["lo"] or 0), d["hi"])
+        for k, res in enumerate(m["results"]):
+            if res["m"] and not (lo <= k and (hi is None or k <= hi)):
+                out.append(({"depth-outside-reported-bounds"},
+                            {"short": {"expression": e, "depth": d, "matches": paths[k], "components": k},
+                             "battery": len(live)}))
+                break
+    return out
